@@ -78,6 +78,12 @@ def _env_recipe(rng, tier, i):
         ex = _all_types_attrs(rng, i == 4)
         k = rng.randrange(len(req) + 1)
         r["attrs"] = req[:k] + ex + req[k:]
+    if i in (5, 6, 7):                       # attribute area filled to the last byte of the header block (slack 0, 1, 2)
+        r["attrs"] = [a for a in r["attrs"] if a.get("name") != "fill"]
+        used = len(G._attr_spans(G._resolve(r))[0])
+        n = G.BLOCK - G.HDR - 4 - (i - 5) - used - (4 + 5 + 8)
+        if n >= 0:
+            r["attrs"].insert(rng.randrange(len(r["attrs"]) + 1), {"name": "fill", "type": G.T_BYTES, "flag": 0, "value": rng.randbytes(n).hex()})
     if i % 2 == 0 and i < 10:
         r["aad"] = rng.randbytes(rng.choice([1, 16, 33])).hex()
     elif i < 10:
@@ -169,7 +175,7 @@ def generate(seed, tier):
         r = _env_recipe(rng, tier, i)
         ts = rng.randrange(1 << 30)
         cases.append({"id": f"g{i}", "kind": "env", "recipe": r, "tseed": ts, "queries": ["attrs", "ks", "dec", "dec_nv", "cli", "wrongkey", "wrongkey_nv", "aadflip",
-                                                                                          "t:attr", "t:attr", "t:cipher", "t:tag", "t:aad"]})
+                                                                                          "t:attr", "t:attr", "t:cipher", "t:tag", "t:aad", "t:tagsize", "t:tagsize+tag"]})
         if i % 2 == 0 or tier != "quick":
             cases.append({"id": f"x{i}", "kind": "info", "recipe": r, "tseed": ts ^ 0x5A5A,
                           "queries": ["t:term", "t:hdr_pad", "t:hdr_fixed", "t:footer_other", "gate", "gate"]})
@@ -348,6 +354,18 @@ def _build(case):
         elif q == "aadflip":
             plan.append(("dec", "a", key, b"" if aad else bytes([rng.randrange(256)]), True))
             truth.append("E")
+        elif q in ("t:tagsize", "t:tagsize+tag"):
+            # the tag-size field of the AEAD footer says how much of the tag is used: shrinking it (and then altering a tag byte
+            # beyond the new size) alters the authentication tag as consumed -> must be refused
+            env = bytearray(b["envelope"])
+            k = rng.choice([4, 8, 12, 15, rng.randrange(4, 16)])
+            struct.pack_into("<I", env, len(env) - 8, k)
+            if q.endswith("+tag"):
+                fo = len(env) - G.BLOCK
+                env[fo + 32 + rng.randrange(k, 16)] ^= rng.randrange(1, 256)
+            plan.append(("dec", variant(bytes(env)), key, aad, True))
+            truth.append("E")
+            branches.add("tamper-" + q[2:])
         elif q.startswith("t:"):
             region = q[2:]
             alt, pos = G.tamper(b, rng, region)
